@@ -1239,6 +1239,7 @@ def check(rep, tier, seed, driver):
                 report(rep, case, p, driver, reported, do_shrink=(p["oracle"] != "model"))
     wide_seed_check(rep, rng)
     cross_process_check(rep, rng)
+    threaded_kmeans_check(rep)
     if SCAN.get("offending"):
         dynamic_kinds |= probe_for_static(rep, driver, reported)
     acc = rep.evaluations - rep.hist.get("rejected_by_library", 0)
@@ -1288,6 +1289,42 @@ def cross_process_check(rep, rng):
                            "digests": [a["digest"], b["digest"]], "how": "PYTHONHASHSEED=0 and =12345: harness/c09_xproc.py <seed %s>" % sd}, True,
                           {"kind": "seeded-run-not-reproducible", "across": "processes"})
             return
+
+
+KMEANS_SNIPPET = """
+import numpy as np
+from ribs.archives import CVTArchive
+def mk():
+    return np.array(CVTArchive(solution_dim=2, cells=20, ranges=[(-1, 1)] * 2, samples=20000, seed=42).centroids)
+a = [mk() for _ in range(4)]
+d = max(float(np.max(np.abs(a[0] - x))) for x in a[1:])
+print("KMEANS", "SAME" if all(np.array_equal(a[0], x) for x in a[1:]) else "DIFF", d, a[0][:2].tolist())
+"""
+
+
+def threaded_kmeans_check(rep):
+    """every check runs with OMP_NUM_THREADS=1 (./check); users do not.  With the OpenMP runtime left at its default, are two identically
+    seeded CVTArchive(centroid_method='kmeans') constructions bit-identical?  (sklearn's Lloyd iteration reduces over threads in a
+    nondeterministic order once the samples span several chunks.)"""
+    import subprocess
+    env = {k: v for k, v in os.environ.items() if k not in ("OMP_NUM_THREADS", "OPENBLAS_NUM_THREADS", "MKL_NUM_THREADS", "NUMBA_NUM_THREADS")}
+    try:
+        r = subprocess.run([sys.executable, "-c", KMEANS_SNIPPET], env=env, stdout=subprocess.PIPE, stderr=subprocess.PIPE, text=True, timeout=300)
+    except subprocess.TimeoutExpired:
+        rep.count("threaded_kmeans_timeout")
+        return
+    line = [l for l in r.stdout.splitlines() if l.startswith("KMEANS ")]
+    if not line:
+        rep.count("threaded_kmeans_no_result")
+        return
+    rep.count("threaded_kmeans_" + line[0].split()[1].lower())
+    if line[0].split()[1] == "DIFF":
+        rep.violation("CVTArchive(centroid_method='kmeans', samples=20000, cells=20, seed=42) built four times in one process with the OpenMP "
+                      "runtime at its default thread count: the centroids differ (max abs difference %s) -- same seed, different result"
+                      % line[0].split()[2],
+                      {"kind": "property", "broken": "every CVTArchive centroid-generation method honours its seed: bit-identical results for the same seed",
+                       "how": "python -c <harness/c09.py: KMEANS_SNIPPET> with OMP_NUM_THREADS / OPENBLAS_NUM_THREADS / MKL_NUM_THREADS unset", "observed": line[0]},
+                      True, {"kind": "kmeans-threaded-nondeterministic"})
 
 
 def wide_seed_check(rep, rng):
